@@ -460,7 +460,6 @@ func verifCanary(label string, cond bool) {}
 //@   props C23
 //@   frame_only
 //@   params cfg
-//@   requires cfgInv(cfg)
 //@   assigns *cfg, *cfg.dialer, *cfg.dialer.Dialer, *cfg.dialer.ClientACK, *cfg.sechan, *cfg.session, *cfg.session.ClientDescription
 //@   assigns *dyn(cfg.session.UserIdentityToken, *ua.AnonymousIdentityToken), *dyn(cfg.session.UserIdentityToken, *ua.UserNameIdentityToken)
 //@   assigns *dyn(cfg.session.UserIdentityToken, *ua.X509IdentityToken), *dyn(cfg.session.UserIdentityToken, *ua.IssuedIdentityToken)
@@ -473,14 +472,12 @@ func verifCanary(label string, cond bool) {}
 //@ func Dialer$1
 //@   props C23
 //@   frame_only
-//@   requires cfgInv(cfg)
 //@   assigns cfg.dialer
 //@   ensures [C23:callers-dialer] cfg.dialer == *d
 
 //@ func setCertificate
 //@   props C23
 //@   frame_only
-//@   requires cfgInv(cfg)
 //@   assigns cfg.sechan.Certificate, cfg.session.ClientDescription.ApplicationURI
 
 //@ func setPolicyID
